@@ -29,7 +29,7 @@ from vlib import wbsys
 PROPERTY_ID = "C22"
 RULE = ("reciprocal lattice of a lattice from 11 families (+rotation; cell edges generic or, in 1/3 of the cases, "
         "commensurate values 0.75..3 that create accidental shell degeneracies), Monkhorst-Pack mesh in [1..6]^3 with <= 48 points, "
-        "k-points listed in a drawn permutation; non-trivial = at least two shells chosen or a non-orthogonal lattice; "
+        "k-points listed in a drawn permutation, exact or rounded to 6/8/10 decimals; non-trivial = at least two shells chosen or a non-orthogonal lattice; "
         "distinctness by the full case")
 ASSUMPTIONS = ["default tolerances of from_kpoints: kmesh_tol=1e-7, bk_complete_tol=1e-5, search_supercell=2",
                "k-points in reduced coordinates inside [0,1) as documented",
@@ -37,7 +37,7 @@ ASSUMPTIONS = ["default tolerances of from_kpoints: kmesh_tol=1e-7, bk_complete_
                "by 1e-9..1e-6 are a tie (Inconclusive)",
                "RuntimeError 'Could not find a complete set' is a violation only for benign families with aspect "
                "ratios <= 2 for which an explicit least-squares shell search (own code) does find a complete stencil"]
-MIN_NONTRIVIAL = {"quick": 60, "thorough": 800}
+MIN_NONTRIVIAL = {"quick": 200, "thorough": 3000}
 
 BENIGN = ("sc", "fcc", "bcc", "tetragonal", "orthorhombic", "hexagonal", "hexagonal60", "rhombohedral")
 ORTHOGONAL = ("sc", "tetragonal", "orthorhombic")
@@ -61,7 +61,9 @@ def case_st(draw):
         mp = draw(st.lists(st.integers(1, 6), min_size=3, max_size=3).filter(lambda m: m[0] * m[1] * m[2] <= 48))
     N = mp[0] * mp[1] * mp[2]
     perm = draw(st.one_of(st.permutations(list(range(N))), st.just(list(range(N)))))
-    return dict(lat=lat, mp=mp, perm=list(perm))
+    # k-points as read from a text file: rounded to a finite number of decimals (None = exact i/N)
+    kdec = draw(st.sampled_from([None, 10, 8, 6, None]))
+    return dict(lat=lat, mp=mp, perm=list(perm), kdec=kdec)
 
 
 def _shells(vec_int, vec_cart):
@@ -109,13 +111,16 @@ def check(case):
     kint0 = np.array(list(itertools.product(range(mp[0]), range(mp[1]), range(mp[2]))), dtype=int)
     kint = kint0[perm]
     kpts = kint / mp[None, :]
+    if case.get("kdec") is not None:
+        kpts = np.round(kpts, case["kdec"])
     basis = B / mp[:, None]  # mesh step vectors (rows)
     steps = np.sqrt((basis ** 2).sum(axis=1))
     edges = np.sqrt((L ** 2).sum(axis=1))
     aspect = float(steps.max() / steps.min())
     labels = [f"lat={kind}", "uniform-mesh" if len(set(case["mp"])) == 1 else "anisotropic-mesh",
               "permuted" if np.any(perm != np.arange(N)) else "natural-order",
-              "aspect<=2" if aspect <= 2 else "aspect>2", "commensurate-edges" if case["lat"].get("commensurate") else None]
+              "aspect<=2" if aspect <= 2 else "aspect>2", "commensurate-edges" if case["lat"].get("commensurate") else None,
+              f"kpoints-decimals={case.get('kdec')}"]
     try:
         bk = BKVectors.from_kpoints(recip_lattice=B.copy(), mp_grid=mp.copy(), kpoints_red=kpts.copy())
     except RuntimeError as e:
@@ -230,4 +235,4 @@ def check(case):
     return ok(nshell >= 2 or nonorth, *labels)
 
 
-SUBS = [Sub("bk", case_st(), check, quick=640, thorough=12000, budget_quick=70, budget_thorough=500)]
+SUBS = [Sub("bk", case_st(), check, quick=1600, thorough=24000, budget_quick=70, budget_thorough=500)]
